@@ -240,11 +240,17 @@ func init() {
 		tk[0] = c
 		var cell Value = tk
 		r.envChans = append(r.envChans, c)
+		if r.timersQuiet && fr.fn.Name() == "NewTimer" {
+			c.envStopped, c.envQuiet = true, true
+		}
 		return &cell
 	}, "time.NewTicker", "time.NewTimer")
 	reg(func(r *Run, fr *frame, args []Value) Value {
 		c := newEnvChan(r, "after")
 		c.elem = timeT(r)
+		if r.timersQuiet {
+			c.envStopped, c.envQuiet = true, true
+		}
 		return c
 	}, "time.After", "time.Tick")
 	reg(func(r *Run, fr *frame, args []Value) Value {
@@ -260,7 +266,7 @@ func init() {
 	reg(func(r *Run, fr *frame, args []Value) Value {
 		p := args[0].(*Value)
 		if c, ok := (*p).(Struct)[0].(*Chan); ok && c != nil {
-			c.envStopped = false
+			c.envStopped = c.envQuiet
 			c.buf = nil
 		}
 		if fr.fn.Signature.Results().Len() > 0 {
@@ -335,7 +341,8 @@ func (r *Run) newFileValue(h *fsHandle) Value {
 func handleOf(fr *frame, v Value) *fsHandle {
 	p, ok := v.(*Value)
 	if !ok || p == nil {
-		fr.rtPanic("nil", "invalid memory address or nil pointer dereference (nil *os.File)")
+		// methods of a nil *os.File return os.ErrInvalid; model: a closed handle on no file
+		return &fsHandle{name: "<nil file>", f: &fsFile{}, closed: true}
 	}
 	h, ok := (*p).(*fsHandle)
 	if !ok {
